@@ -254,6 +254,25 @@ def check(ctx):
             if k2 != "ok" or type(v2) is not int or v2 != want2:
                 ctx.violation("in:" + t2, t2, str(want2), real_ans(k2, v2), "execute(%r)" % t2)
             cases.append(("arr in %s %s" % (num_canon(vx), " ".join(num_canon(y) for y in va.contents)), real_ans(k2, v2), t2))
+    # ------------------------------------------------------------ conditions whose value is 0 or 1 of ANOTHER numeric kind
+    # (a lazy combinatoric, a quotient of lazies, a product with a lazy zero, a variable holding one): "keeps the positions where
+    # every condition is 1"; a lazy 3 is "not 0 or 1" and an error
+    lazy_conds = [("{n : n in 0..5, C(n,n)}", "{0, 1, 2, 3, 4, 5}"), ("{k : k in 0..4, C(1,k)}", "{0, 1}"), ("{x : x in 2..5, x!/x!}", "{2, 3, 4, 5}"),
+                  ("{x : x in 2..5, 0*x!}", "{}"), ("{x+y : x in 2..6, y in {10,20,30}, x >= 3, C(y,y)}", "{23, 34}"),
+                  ("sum({n : n in 0..5, C(n,n)})", "15"), ("one = C(4,4); {x : x in 1..3, one}", "{1, 2, 3}"), ("{x : x in 1..3, C(x,2)}", None),
+                  ("{x : x in 1..3, 3!/6}", "{1, 2, 3}"), ("{x : x in 1..3, 2/2}", "{1, 2, 3}"), ("{x : x in 1..4, C(2,x)/2}", None),
+                  ("{x : x in 1..3, C(3,3), C(x,x), x < 3}", "{1, 2}"), ("size({x : x in 1..6, C(1, x - 3)})", "2"), ("{x : x in 3..4, 3!}", None)]
+    for text, want_txt in lazy_conds:
+        r = R.execute(text)
+        ctx.count(text, bucket="compr/lazy-condition")
+        if want_txt is None:
+            if r["status"] == 0 or r["escaped"]:
+                ctx.violation("compr:" + text, text, "an error (a condition that is not 0 or 1)", r["out"].strip() or str(r["escaped"]), "execute(%r)" % text)
+        else:
+            w = R.execute(want_txt)
+            if r["escaped"] or r["status"] != 0 or r["out"] != w["out"]:
+                ctx.violation("compr:" + text, text, want_txt, r["out"].strip() or "status %s %s %s" % (r["status"], r["escaped"] or "", r["err"].strip()[:100]),
+                              "execute(%r)" % text)
     # ------------------------------------------------------------ comprehensions
     names_pool = ["x", "y", "z"]
     for _ in range(ctx.n(300, 4000)):
